@@ -498,12 +498,11 @@ Proof.
   rewrite c01_drop_rep_spec by (intros X; apply Hn; apply in_rev; exact X).
   rewrite rev_app_distr. simpl rev. rewrite rev_involutive, c01_rev_repeat.
   rewrite <- app_assoc. simpl app at 2. rewrite <- app_assoc. simpl app at 2.
-  rewrite !map_app, c01_map_repeat. simpl map at 2. simpl (if -1 =? -1 then FILL else -1).
-  f_equal.
-  - apply c01_map_id_on. apply Forall_app in Hpos. destruct Hpos as [Hp _].
-    eapply Forall_impl; [|exact Hp]. simpl. intros x Hx. destruct (x =? -1) eqn:E; [lia|reflexivity].
-  - f_equal. apply Forall_app in Hpos. destruct Hpos as [_ Ha]. inversion Ha; subst.
-    destruct (a =? -1) eqn:E; [lia|reflexivity].
+  apply Forall_app in Hpos. destruct Hpos as [Hp Ha]. inversion Ha; subst.
+  rewrite map_app. cbn [map]. rewrite c01_map_repeat. f_equal; [|f_equal].
+  - apply c01_map_id_on. eapply Forall_impl; [|exact Hp]. simpl. intros x Hx.
+    destruct (x =? -1) eqn:E; [lia|reflexivity].
+  - destruct (a =? -1) eqn:E; [lia|reflexivity].
 Qed.
 
 (* was C01_scrip_padding_refuted before fix 5e414c62.  Every cell gets back exactly its corner positions,
@@ -537,10 +536,10 @@ Proof.
     assert (Hpos : Forall (fun x => 0 <= x) (map G f))
       by (apply Forall_map; apply Forall_forall; intros p Hp; unfold G; lia).
     split; [|split; [exact Hpos|]].
-    - destruct (exists_last Hne) as (f' & a & Ef). subst f. rewrite last_last.
+    - destruct (exists_last Hne) as (f' & a & Ef). unfold r. clear Hr Hin. clear r. subst f. rewrite last_last.
       rewrite map_app, c01_map_repeat, map_app. simpl map at 2.
       rewrite app_length. simpl length.
-      apply c01_scrip_row_ok; [|rewrite <- map_app; exact Hpos].
+      rewrite map_app in Hpos. cbn [map] in *. apply c01_scrip_row_ok; [|exact Hpos].
       intros X. apply in_map_iff in X. destruct X as (q & Eq & Hq).
       apply NoDup_remove_2 in Hnd. rewrite app_nil_r in Hnd. apply Hnd.
       assert (q = a); [|subst q; exact Hq].
